@@ -18,6 +18,7 @@
 
 #include "parser.h"
 #include "context.h"
+#include "functor_manager.h"
 #include "debug.h"
 #include "parse_statement.h"
 #include "parse_expression.h"
@@ -161,18 +162,21 @@ Statement * Parser::parseStatement()
       break;
     }
 
+    size_t mark = _ctx.functorManager().unitMark();
     try
     {
       state(Parsing);
       _ctx.parsingBegin();
       Statement * s = ParseStatement::statement(*this, _ctx);
       _ctx.parsingEnd();
+      _ctx.functorManager().unitCommit(mark);
       state(End);
       return s;
     }
     catch (...)
     {
       _ctx.parsingEnd();
+      _ctx.functorManager().unitAbort(mark);
       state(End);
       throw;
     }
@@ -207,6 +211,7 @@ Executable * Parser::parse(Context& ctx, StreamReader& reader, bool trace /*= fa
   std::list<const Statement*> statements;
 
   p.state(Parsing);
+  size_t mark = ctx.functorManager().unitMark();
   try
   {
     ctx.parsingBegin();
@@ -227,6 +232,7 @@ Executable * Parser::parse(Context& ctx, StreamReader& reader, bool trace /*= fa
         statements.push_back(s);
     }
     ctx.parsingEnd();
+    ctx.functorManager().unitCommit(mark);
     if (trace && ctx.ctxerr())
       fflush(ctx.ctxerr());
     return new Executable(ctx, statements);
@@ -234,6 +240,8 @@ Executable * Parser::parse(Context& ctx, StreamReader& reader, bool trace /*= fa
   catch (ParseError& pe)
   {
     ctx.parsingEnd();
+    /* the functions declared by the rejected text are restored */
+    ctx.functorManager().unitAbort(mark);
     for (auto s : statements)
       delete s;
     /* break current trace line */
